@@ -87,11 +87,16 @@ def _paths(adj, length):
     return out
 
 
+ITP_MULTITERM = True    # F20 fixed: same-atom terms of an .itp block get version tags
+
+
 @st.composite
-def block(draw, name, nrexcl, syntax, names=None, max_atoms=5, resname=None):
-    natoms = draw(st.integers(1, max_atoms))
+def block(draw, name, nrexcl, syntax, names=None, max_atoms=5, resname=None, nonbond_sections=True):
     if names is None:
+        natoms = draw(st.integers(1, max_atoms))
         names = draw(st.permutations(ATOMNAMES))[:natoms]
+    else:
+        natoms = len(names)
     atoms = []
     for idx in range(natoms):
         atoms.append({"name": names[idx], "type": draw(st.sampled_from(TYPES)),
@@ -125,6 +130,8 @@ def block(draw, name, nrexcl, syntax, names=None, max_atoms=5, resname=None):
                     continue
                 used.add(key)
                 nterm = draw(st.sampled_from([1, 1, 1, 2])) if sec == "dihedrals" else 1
+                if syntax == "itp" and not ITP_MULTITERM:
+                    nterm = 1
                 if nterm == 1:
                     inter.append(draw(interaction(sec, path)))
                 else:
@@ -133,7 +140,7 @@ def block(draw, name, nrexcl, syntax, names=None, max_atoms=5, resname=None):
                         if it["params"][0] == "2":
                             it["params"] = ["9", it["params"][1], it["params"][2], "2"]
                         inter.append(it)
-    if natoms >= 2:
+    if natoms >= 2 and nonbond_sections:
         for sec in ("pairs", "exclusions", "position_restraints", "virtual_sites2"):
             if draw(st.integers(0, 5)) == 0:
                 need = NATOMS[sec]
@@ -158,12 +165,16 @@ def order_prefix(order):
 
 
 @st.composite
-def link(draw, blocks, label_pool, allow_replace=True, allow_atype_sel=True):
+def link(draw, blocks, label_pool, allow_replace=True, allow_atype_sel=True, prefer=None, bonded_only=False,
+         nonbond_sections=True):
     orders = draw(st.sampled_from(ORDER_SETS))
     nres = len(orders)
     names = [b["name"] for b in blocks if len({a["resid"] for a in b["atoms"]}) == 1]
     # residue name per order
-    res_of_order = [draw(st.sampled_from(names)) for _ in orders]
+    if prefer and draw(st.integers(0, 3)) > 0:
+        res_of_order = [draw(st.sampled_from(prefer)) for _ in orders]
+    else:
+        res_of_order = [draw(st.sampled_from(names)) for _ in orders]
     if draw(st.integers(0, 2)) > 0:          # homopolymer-like link is the common case
         res_of_order = [res_of_order[0]] * nres
     by_name = {b["name"]: b for b in blocks}
@@ -201,6 +212,8 @@ def link(draw, blocks, label_pool, allow_replace=True, allow_atype_sel=True):
     pairs = [(i, i + 1) for i in range(nres - 1)] if shape == "path" else [(0, i) for i in range(1, nres)]
     for (oa, ob) in pairs:
         sec = draw(st.sampled_from(["bonds", "bonds", "bonds", "constraints", "angles"]))
+        if bonded_only and sec == "angles":
+            sec = "bonds"
         if sec == "angles":
             keys = [atom_key(oa), atom_key(oa), atom_key(ob)]
             if keys[0] == keys[1]:
@@ -218,6 +231,10 @@ def link(draw, blocks, label_pool, allow_replace=True, allow_atype_sel=True):
     # extra interactions over already known atoms
     for _ in range(draw(st.integers(0, 2))):
         sec = draw(st.sampled_from(["bonds", "angles", "dihedrals", "exclusions", "pairs"]))
+        if bonded_only and sec in ("angles", "dihedrals"):
+            sec = "exclusions"
+        if not nonbond_sections and sec in ("exclusions", "pairs"):
+            continue
         need = NATOMS[sec]
         pool = list(atoms)
         for _k in range(draw(st.integers(0, 2))):
@@ -243,7 +260,7 @@ def link(draw, blocks, label_pool, allow_replace=True, allow_atype_sel=True):
         inter.append(draw(interaction("bonds", keys)))
     keys_all = list(atoms)
     edges, non_edges, patterns = [], [], []
-    if draw(st.integers(0, 7)) == 0 and len(keys_all) >= 2:
+    if not bonded_only and draw(st.integers(0, 7)) == 0 and len(keys_all) >= 2:
         pair = list(draw(st.permutations(keys_all))[:2])
         edges.append(pair + [{}])
     if draw(st.integers(0, 6)) == 0 and len(keys_all) >= 1:
@@ -342,22 +359,28 @@ LABELS = [("chiral", "R"), ("chiral", "S"), ("tag", "x")]
 
 @st.composite
 def case(draw, with_links=True, max_res=8, mixed_nrexcl=False, routes=("json", "json", "seq", "txt"),
-         allow_itp=True, allow_replace=True, min_res=1, allow_dangling=True):
+         allow_itp=True, allow_replace=True, min_res=1, allow_dangling=True, link_bias=False,
+         bonded_only=False, f22_safe=False):
     nblocks = draw(st.integers(1, 3))
     names = RESNAMES[:nblocks]
     blocks = []
     base_excl = draw(st.integers(0, 3))
-    for name in names:
+    syntaxes = [draw(st.sampled_from(["ff", "ff", "itp"])) if allow_itp else "ff" for _ in names]
+    # F22: with a polyply .itp among the inputs every interaction section makes graph edges
+    nonbond = not (f22_safe and "itp" in syntaxes)
+    for name, syntax in zip(names, syntaxes):
         nrexcl = draw(st.integers(0, 4)) if mixed_nrexcl else base_excl
-        syntax = draw(st.sampled_from(["ff", "ff", "itp"])) if allow_itp else "ff"
-        blocks.append(draw(block(name, nrexcl, syntax)))
+        blocks.append(draw(block(name, nrexcl, syntax, nonbond_sections=nonbond)))
     use_labels = draw(st.booleans())
     label_pool = LABELS if use_labels else []
     links = []
+    graph, route = draw(residue_graph(names, max_res=max_res, label_pool=label_pool, routes=routes,
+                                      min_res=min_res))
+    prefer = sorted({n["resname"] for n in graph["nodes"]}) if link_bias else None
     if with_links:
-        # homopolymer connecting links so that most edges are realised
-        for _ in range(draw(st.integers(0, 4))):
-            links.append(draw(link(blocks, label_pool, allow_replace=allow_replace)))
+        for _ in range(draw(st.integers(1 if link_bias else 0, 4))):
+            links.append(draw(link(blocks, label_pool, allow_replace=allow_replace, prefer=prefer,
+                                   bonded_only=bonded_only, nonbond_sections=nonbond)))
     # dangling interactions in itp blocks
     if allow_dangling:
         for blk in blocks:
@@ -365,6 +388,8 @@ def case(draw, with_links=True, max_res=8, mixed_nrexcl=False, routes=("json", "
                 nat = len(blk["atoms"])
                 for _ in range(draw(st.integers(1, 2))):
                     sec = draw(st.sampled_from(["bonds", "bonds", "angles"]))
+                    if bonded_only:
+                        sec = "bonds"
                     need = NATOMS[sec]
                     span = draw(st.sampled_from([1, 1, 2]))
                     if nat * (span + 1) < need:
@@ -380,8 +405,6 @@ def case(draw, with_links=True, max_res=8, mixed_nrexcl=False, routes=("json", "
                     if [tuple(i["atoms"]) for i in blk["inter"] if i["sec"] == sec].count(tuple(idxs)):
                         continue
                     blk["inter"].append(draw(interaction(sec, idxs, guard_ok=False)))
-    graph, route = draw(residue_graph(names, max_res=max_res, label_pool=label_pool, routes=routes,
-                                      min_res=min_res))
     # files: .ff blocks + links in one or two ff files, each itp block in its own file
     ff_blocks = [i for i, b in enumerate(blocks) if b["syntax"] == "ff"]
     itp_blocks = [i for i, b in enumerate(blocks) if b["syntax"] == "itp"]
@@ -613,3 +636,162 @@ def run_gen_params(spec, ctx, outname="out.itp", capture=True):
         run.text = out.read_text()
     run.warnings = [r for r in core._COLLECTOR.records if r[0] >= logging.WARNING]
     return run
+
+
+# ----------------------------------------------------------------------------
+# multi-residue blocks (referenced from the residue graph with from_itp)
+MULTI_RESNAMES = ["XA", "XB", "XC"]
+
+
+@st.composite
+def multires_block(draw, name, nrexcl, syntax):
+    nres = draw(st.integers(2, 3))
+    atoms, inter = [], []
+    resnames = [draw(st.sampled_from(MULTI_RESNAMES)) for _ in range(nres)]
+    first_of = []
+    for r in range(nres):
+        nat = draw(st.integers(1, 3))
+        names = draw(st.permutations(ATOMNAMES))[:nat]
+        if syntax == "ff":      # atom names are unique within a .ff block
+            names = [f"{nm}{r + 1}" for nm in names]
+        first_of.append(len(atoms))
+        for k in range(nat):
+            atoms.append({"name": names[k], "type": draw(st.sampled_from(TYPES)),
+                          "charge": draw(st.sampled_from(CHARGES)), "mass": draw(st.sampled_from(MASSES)),
+                          "cgrp": draw(st.integers(1, 6)), "resid": r + 1, "resname": resnames[r]})
+            if k > 0:
+                other = first_of[r] + draw(st.integers(0, k - 1))
+                inter.append(draw(interaction("bonds", [other, first_of[r] + k], guard_ok=False)))
+        if r > 0:   # connect to the previous residue
+            a = draw(st.integers(first_of[r - 1], first_of[r] - 1))
+            b = draw(st.integers(first_of[r], len(atoms) - 1))
+            sec = draw(st.sampled_from(["bonds", "bonds", "constraints"]))
+            inter.append(draw(interaction(sec, [a, b], guard_ok=False)))
+    n = len(atoms)
+    adj = {i: [] for i in range(n)}
+    for it in inter:
+        a, b = it["atoms"]
+        adj[a].append(b)
+        adj[b].append(a)
+    for length, sec in ((3, "angles"), (4, "dihedrals")):
+        paths = _paths(adj, length)
+        if paths and draw(st.booleans()):
+            seen = set()
+            for path in draw(st.lists(st.sampled_from(paths), min_size=1, max_size=2)):
+                key = min(path, path[::-1])
+                if key in seen:
+                    continue
+                seen.add(key)
+                inter.append(draw(interaction(sec, path, guard_ok=(syntax == "ff" or True))))
+    return {"name": name, "nrexcl": nrexcl, "syntax": syntax, "atoms": atoms, "inter": inter,
+            "multires": nres}
+
+
+@st.composite
+def multires_case(draw):
+    nrexcl = draw(st.integers(0, 3))
+    nnormal = draw(st.integers(0, 2))
+    blocks = []
+    for name in RESNAMES[:nnormal]:
+        blocks.append(draw(block(name, nrexcl, draw(st.sampled_from(["ff", "itp"])))))
+    nmulti = draw(st.integers(1, 2))
+    for name in ["MA", "MB"][:nmulti]:
+        blocks.append(draw(multires_block(name, nrexcl, draw(st.sampled_from(["ff", "itp", "itp"])))))
+    multi = [b for b in blocks if b.get("multires")]
+    normal = [b for b in blocks if not b.get("multires")]
+    # segments
+    segs = []
+    for _ in range(draw(st.integers(1, 4))):
+        if normal and draw(st.integers(0, 2)) == 0:
+            segs.append(("n", draw(st.sampled_from(normal)), draw(st.integers(1, 2))))
+        else:
+            segs.append(("m", draw(st.sampled_from(multi)), draw(st.sampled_from([1, 1, 2]))))
+    if not any(s[0] == "m" for s in segs):
+        segs.append(("m", multi[0], 1))
+    start = draw(st.sampled_from([1, 1, 2, 9]))
+    nodes = []
+    for kind, blk, count in segs:
+        for _ in range(count):
+            if kind == "n":
+                nodes.append({"resname": blk["name"], "attrs": {}})
+            else:
+                resnames = []
+                for at in blk["atoms"]:
+                    if len(resnames) < at["resid"]:
+                        resnames.append(at["resname"])
+                for rn in resnames:
+                    nodes.append({"resname": rn, "attrs": {"from_itp": blk["name"]}})
+    n = len(nodes)
+    keymode = draw(st.sampled_from(["plain", "plain", "offset", "perm"]))
+    if keymode == "plain":
+        ids = [start - 1 + i for i in range(n)]
+    elif keymode == "offset":
+        off = draw(st.integers(1, 20))
+        ids = [off + i for i in range(n)]
+    else:
+        ids = list(draw(st.permutations(range(n))))
+    for i, nd in enumerate(nodes):
+        nd["id"] = ids[i]
+        nd["resid"] = start + i
+    edges = [[ids[i], ids[i + 1], {}] if draw(st.booleans()) else [ids[i + 1], ids[i], {}] for i in range(n - 1)]
+    graph = {"nodes": nodes, "edges": edges, "kind": "linear", "node_order": list(draw(st.permutations(range(n))))}
+    links = []
+    single = [b for b in blocks if not b.get("multires")]
+    files = []
+    ff_blocks = [i for i, b in enumerate(blocks) if b["syntax"] == "ff"]
+    if ff_blocks:
+        files.append({"kind": "ff", "blocks": ff_blocks, "links": [], "mods": []})
+    for i, b in enumerate(blocks):
+        if b["syntax"] == "itp":
+            files.append({"kind": "itp", "blocks": [i], "links": [], "mods": []})
+    files = list(draw(st.permutations(files)))
+    return {"rng": draw(st.integers(0, 2**31 - 1)), "name": "mol", "blocks": blocks, "links": links,
+            "mods": [], "files": files, "graph": graph, "route": "json", "mods_cli": []}
+
+
+# ----------------------------------------------------------------------------
+# terminal modifications
+PROTEIN = ["GLY", "ALA", "LYS"]
+
+
+@st.composite
+def mods_case(draw):
+    nrexcl = draw(st.integers(0, 3))
+    nblocks = draw(st.integers(1, 3))
+    names = draw(st.permutations(PROTEIN + ["RA"]))[:nblocks]
+    blocks = []
+    shared = draw(st.permutations(ATOMNAMES))[:3]          # names shared between blocks
+    for name in names:
+        nat = draw(st.integers(1, 4))
+        pool = list(shared) + [a for a in ATOMNAMES if a not in shared]
+        blocks.append(draw(block(name, nrexcl, "ff", names=pool[:nat])))
+    mods = []
+    for mname in ["N-ter", "C-ter"] + (["M1"] if draw(st.booleans()) else []):
+        atoms = []
+        for an in draw(st.lists(st.sampled_from(shared[:2]), min_size=1, max_size=2, unique=True)):
+            rep = {}
+            if draw(st.booleans()):
+                rep["atype"] = draw(st.sampled_from(["Q1", "Q5"]))
+            if draw(st.booleans()):
+                rep["charge"] = draw(st.sampled_from(CHARGES))
+            atoms.append({"name": an, "replace": rep})
+        inter = []
+        if len(atoms) == 2 and draw(st.booleans()):
+            inter.append({"sec": draw(st.sampled_from(["bonds", "constraints"])),
+                          "atoms": [atoms[0]["name"], atoms[1]["name"]],
+                          "params": ["1", _param(draw)], "meta": {}})
+        mods.append({"name": mname, "atoms": atoms, "inter": inter})
+    graph, route = draw(residue_graph(list(names), max_res=6, routes=("json", "json", "seq", "txt")))
+    links = []
+    for _ in range(draw(st.integers(0, 2))):
+        links.append(draw(link(blocks, [], allow_replace=False, allow_atype_sel=False,
+                               prefer=sorted({n["resname"] for n in graph["nodes"]}))))
+    files = [{"kind": "ff", "blocks": list(range(len(blocks))), "links": list(range(len(links))),
+              "mods": list(range(len(mods)))}]
+    mods_cli = []
+    if draw(st.integers(0, 2)) == 0:
+        for node in draw(st.lists(st.sampled_from(graph["nodes"]), min_size=1, max_size=2,
+                                  unique_by=lambda nd: nd["resid"])):
+            mods_cli.append([f"{node['resname']}{node['resid']}", draw(st.sampled_from([m["name"] for m in mods]))])
+    return {"rng": draw(st.integers(0, 2**31 - 1)), "name": "mol", "blocks": blocks, "links": links,
+            "mods": mods, "files": files, "graph": graph, "route": route, "mods_cli": mods_cli}
